@@ -10,7 +10,7 @@ over an axiomatic byte-offset model (boff: strictly increasing, 0 at 0, an ASCII
 occupies one byte; slicing is defined - does not panic - exactly at character boundaries), `Cow`
 construction, and `to_string()` = collecting the iterator (Display impl: try_for_each write_char)."""
 from vf.unit import Unit
-from . import common
+from . import common, strrules
 
 NAME = 'unq'
 PROPS = ['C17']
@@ -92,14 +92,9 @@ def build(repo):
     NX = ("impl Iterator for Unquote<'_>", 'next')
     # R34: std string functions through the wrappers
     u.replace_in(TC, 'R34:to_string', r'Cow::from\(self\.to_string\(\)\)', 'cow_owned(unquote_to_string(self))')
-    u.replace_in(TC, 'R34:str-len', r'(?:(?<=\.\.)|(?<![\w.]))(\w+)\.len\(\)', r'str_len(\1)', (0, 9))
-    u.replace_in(TC, 'R34:str-find-char', r"(?<![\w.])(\w+)\.find\(('(?:\\.|[^'\\])')\)", r'str_find_char(\1, \2)', (1, 9))
-    u.replace_in(TC, 'R34:str-rfind-char', r"(?<![\w.])(\w+)\.rfind\(('(?:\\.|[^'\\])')\)", r'str_rfind_char(\1, \2)', (0, 9))
-    u.replace_in(TC, 'R34:slice-range', r'&(\w+)\[([^\]\[.]+?)\.\.([^\]\[.]+?)\]', r'str_to(str_from(\1, \2), (\3) - (\2))', (0, 9))
-    u.replace_in(TC, 'R34:slice-from', r'&(\w+)\[([^\]\[.]+?)\.\.\]', r'str_from(\1, \2)', (0, 9))
-    u.replace_in(TC, 'R34:slice-to', r'&(\w+)\[\.\.([^\]\[.]+?)\]', r'str_to(\1, \2)', (0, 9))
+    strrules.apply(u, TC)
     u.replace_in(TC, 'R34:cow-borrowed', r'Cow::from\(', 'cow_borrowed(', (1, 9))
-    u.replace_in(IQ, 'R34:starts_with', r"self\.inner\.as_str\(\)\.starts_with\('\"'\)", "str_starts_with_char(self.inner.as_str(), '\"')")
+    strrules.apply(u, IQ)
     u.contract((UQ, 'new'), '        ensures r.state == UnquoteState::NotStarted, r.inner.remaining() == quoted_str@', props=PROPS)
     u.contract(IQ, '''        ensures
             self.state == UnquoteState::NotStarted ==> r == (self.inner.remaining().len() > 0 && self.inner.remaining()[0] == '"'),
